@@ -71,7 +71,7 @@ class AnnGen(gen.TraitGen):
     def __init__(self, draw, **kw):
         super().__init__(draw, **kw)
         self.comp_any += ["gramx"]
-        self.comp_sq += ["traited", "traited", "sslice", "gramprod"]
+        self.comp_sq += ["traited", "traited", "sslice", "gramprod", "annwrap"]
 
     def op(self, r, c, depth):
         if r == c and self.integer(1, 2) == 1:
@@ -107,6 +107,10 @@ class AnnGen(gen.TraitGen):
         other = gram if self.integer(1, 4) == 1 else self.op(r, r, max(d - 1, 0))
         ch = [gram, other] if self.boolean() else [other, gram]
         return {"k": "prod", "via": self.pick(["op", "op", "ctor"]), "ch": ch}
+
+    def k_annwrap(self, r, c, d):
+        # annotated structured operators under one combinator (incl. congruences B K1 K2 B^H), see TraitGen.annotated
+        return self.annotated(r, min(max(d, 0), 2), keep_shape=True)
 
     def k_sslice(self, r, c, d):
         # slice of an annotated square operator with equal or unequal index sets
@@ -203,8 +207,9 @@ def routine_cases(draw, tier):
         case["k"] = g.integer(1, m)
         case["alg"] = g.pick(["omitted", "Auto", "DenseSVD", "Lanczos"])
     elif rt == "unary":
-        case["tree"] = g.t_pd(n, 1)
-        case["fn"] = g.pick(["exp", "log", "sqrt", "isqrt", "pow2.5", "pow-2"])
+        # positive definite, or (1 in 3) Hermitian indefinite: functions with a branch cut then leave the real axis
+        case["tree"] = g.t_pd(n, 1) if g.integer(1, 3) > 1 else g.t_herm(n, 1)
+        case["fn"] = g.pick(["exp", "log", "sqrt", "isqrt", "pow2.5", "pow-2", "apply:cexp", "apply:sin"])
         case["alg"] = g.pick(["omitted", "Auto", "Eig", "Eigh", "Lanczos", "Arnoldi"])
     elif rt == "inv_unitary":
         case["tree"] = g.t_unitary(n, 2)
@@ -362,9 +367,12 @@ def check_routine(case, out):
             alg = _alg(case["alg"], n)
             out.label("alg:" + case["alg"], "fn:" + case["fn"])
             fn = case["fn"]
-            AA = A if A.isa(cola.PSD) or case["alg"] in ("omitted", "Auto", "Eig", "Arnoldi") else cola.PSD(A)
+            pd = bool(np.all(np.linalg.eigvalsh((R.M + R.M.conj().T) / 2) > 0))
+            AA = A if A.isa(cola.PSD) or case["alg"] in ("omitted", "Auto", "Eig", "Arnoldi") else (cola.PSD if pd else cola.SelfAdjoint)(A)
             extra = () if alg is None else (alg, )
-            if fn.startswith("pow"):
+            if fn.startswith("apply:"):  # user functions, with real and with complex coefficients
+                F = L.apply_unary({"cexp": lambda x: np.exp(1j * x), "sin": np.sin}[fn[6:]], AA, *extra)
+            elif fn.startswith("pow"):
                 F = L.pow(AA, float(fn[3:]), *extra)
             else:
                 F = getattr(L, fn)(AA, *extra)
